@@ -321,7 +321,7 @@ type gen struct {
 	vars []variable
 	// feature switches: constructs that hit a recorded, still open finding are generated only
 	// in their own stream
-	negCounts bool
+	negCounts  bool
 	uintptrNot bool
 }
 
